@@ -37,7 +37,7 @@ def load(path):
 
 s = open(os.path.join(ROOT, "DESIGN.md")).read()
 for tag, get in (("QUICKTABLE", lambda p: load(os.path.join(ROOT, "evidence", p + ".json"))),
-                 ("THOROUGHTABLE", lambda p: load(os.path.join(ROOT, "target", "results", p + "-thorough-evidence.json")))):
+                 ("THOROUGHTABLE", lambda p: load(os.path.join(ROOT, "target", "thorough-evidence", p + ".json")) or load(os.path.join(ROOT, "target", "results", p + "-thorough-evidence.json")))):
     a, b = "<!-- %s-BEGIN -->\n" % tag, "<!-- %s-END -->\n" % tag
     if a in s:
         t = table(get)
